@@ -205,6 +205,20 @@ def main(tier: str) -> int:
                         chk.fail("the written SHADE memory cell is not the documented mean of the successful parameters",
                                  {**dd, "memory": hk, "written": float(ha[nk]), "rule": float(want), "successes": int(len(S)), "total_improvement": float(sum(dff))},
                                  {"optimizer": cn, "clause": "rule", "memory": hk})
+                # S4 for SHAGA: both memories are written with the improvement-weighted Lehmer mean of the successful parameters
+                # (improvements measured on the normalised fitness, so they are positive for minimisation and maximisation alike)
+                if cn == "SHAGA" and len(S):
+                    Sf = [Fraction(float(v)) for v in S]
+                    dff = [Fraction(float(v)) for v in df]
+                    if sum(dff) > 0:
+                        den = sum(w * v for w, v in zip(dff, Sf))
+                        want = sum(w * v * v for w, v in zip(dff, Sf)) / den if den != 0 else Fraction(0)    # the Lehmer mean of zeros is 0
+                    else:
+                        want = Fraction(u)
+                    if not C.close(float(ha[nk]), float(want), 1e-9, 1e-12):
+                        chk.fail("the written SHAGA memory cell is not the improvement-weighted Lehmer mean of the parameters of the strictly improving trials",
+                                 {**dd, "memory": hk, "written": float(ha[nk]), "rule": float(want), "preceding_cell": u, "successes": int(len(S)), "total_improvement": float(sum(dff))},
+                                 {"optimizer": cn, "clause": "rule", "memory": hk})
                 if cn == "SHADE" and hk == "_H_F":
                     add({"op": "ad_update_f", "u": C.rat(u), "S": [C.rat(float(v)) for v in S]}, ("update_F:SHADE", {**dd, "u": u, "S": S.tolist()}, float(ha[nk])))
                 elif cn == "SHADE":
